@@ -11,9 +11,11 @@ use super::*;
 //@include prelude/dbview.rs
 //@include prelude/hof.rs
 //@include prelude/resolve_spec.rs
+//@include prelude/resolve_l2.rs
 //@include prelude/sort.rs
 //@include prelude/path_ext.rs
 //@include prelude/avail_spec.rs
+//@include prelude/avail_l2.rs
 } // mod pre
 use pre::*;
 
@@ -24,13 +26,17 @@ use pre::*;
 broadcast use {axiom_has_parent_nonempty, axiom_str_as_path, axiom_path_as_path};
 
 impl FixtureDatabase {
+    /// the part of the database compute_available_fixtures depends on
     pub open spec fn avv(&self) -> AvV { AvV { defs: self.defs(), td: self.text_dom(), imp: imp_of(self.file_cache.m(), self.defs()) } }
 
+    // ASSUMED callee contract (imports.rs, owned by the imports unit): the result is an abstract function of the
+    // cached texts, the definitions and the file; the effect on `visited` is unconstrained
     #[verifier::external_body]
     pub fn get_imported_fixtures(&self, file_path: &Path, visited: &mut HashSet<PathBuf>) -> (r: HashSet<String>)
         ensures r.s() == imported_set(self.file_cache.m(), self.defs(), pv(file_path))
     { unimplemented!() }
 
+    // ASSUMED callee contract (mod.rs): canonical_path_cache / Path::canonicalize — abstract function of the path
     #[verifier::external_body]
     pub(crate) fn get_canonical_path(&self, path: PathBuf) -> (r: PathBuf)
         ensures pbv(&r) == canon_pv(pbv(&path))
@@ -43,6 +49,376 @@ impl FixtureDatabase {
 @closure 1 |a: &FixtureDefinition, b: &FixtureDefinition| -> (o: core::cmp::Ordering) ensures o == name_cmp()(*a, *b)
 @sig
     requires wf_names(self.defs()),
+    ensures avail_post(dvs(r@), self.avv(), pv(file_path)),
+@before for 1
+    let ghost v = self.avv();
+    let ghost file = pv(file_path);
+    let ghost pick = rf_pick(v, file);
+    let ghost m0 = self.definitions.m();
+    let ghost mut done: Set<Seq<char>> = Set::empty();
+    let ghost cond = p_same(file, fs_true());
+    let ghost curf = rf_pick(v, file);
+    let ghost nxtf = rf_after_same(v, file);
+    proof {
+        lemma_rest_init(pick);
+        assert(dvs(available_fixtures@) =~= Seq::<DefV>::empty());
+        lemma_step_start(pick, dvs(available_fixtures@), seen_names.s(), curf, nxtf);
+    }
+@loopvar 1 it
+@loop 1
+    invariant
+        cond == p_same(file, fs_true()),
+        wf_names(self.defs()), m0 == self.definitions.m(), v == self.avv(), file == pv(file_path), pick == rf_pick(v, file),
+        forall|j: int| 0 <= j < it.seq().len() ==> m0.contains_key((#[trigger] it.seq()[j]).k@) && *it.seq()[j].v == m0[it.seq()[j].k@],
+        forall|key: Seq<char>| m0.contains_key(key) ==> exists|j: int| 0 <= j < it.seq().len() && (#[trigger] it.seq()[j]).k@ == key,
+        forall|j: int| 0 <= j < it.index@ ==> done.contains((#[trigger] it.seq()[j]).k@),
+        step_inv(pick, dvs(available_fixtures@), seen_names.s(), done, curf, nxtf),
+        phase_rel(v, curf, cond, nxtf),
+@loopend 1
+    proof {
+        let nm = entry.k@;
+        if !seen_names.s().contains(nm) {
+            let ds = bucket(v.defs, nm);
+            assert forall|j: int| 0 <= j < ds.len() implies !cond(#[trigger] ds[j]) by { let y = entry.v@[j]; }
+        }
+        lemma_scan_done(v, pick, dvs(available_fixtures@), seen_names.s(), done, curf, nxtf, cond, nm);
+        done = done.insert(nm);
+    }
+@loopvar 2 it2
+@loop 2
+    invariant
+        cond == p_same(file, fs_true()),
+        wf_names(self.defs()), m0 == self.definitions.m(), v == self.avv(), file == pv(file_path), pick == rf_pick(v, file),
+        m0.contains_key(entry.k@), *entry.v == m0[entry.k@], fixture_name@ == entry.k@,
+        it2.seq() == entry.v@.as_ref(),
+        step_inv(pick, dvs(available_fixtures@), seen_names.s(), done, curf, nxtf),
+        phase_rel(v, curf, cond, nxtf),
+        !seen_names.s().contains(entry.k@) ==> forall|i: int| 0 <= i < it2.index@ ==> !cond(dv(&(#[trigger] entry.v@[i]))),
+@before push 1
+    let ghost av0 = dvs(available_fixtures@);
+    let ghost seen0 = seen_names.s();
+@after insert 1
+    proof {
+        let nm = entry.k@; let i = it2.index@ as int;
+        assert(entry.v@[i] == *def);
+        assert(v.defs[nm] == dvs(entry.v@));
+        assert forall|j: int| 0 <= j < i implies !cond(#[trigger] v.defs[nm][j]) by { let y = entry.v@[j]; }
+        assert(is_first(v.defs[nm], cond, i));
+        lemma_scan_push(v, pick, av0, seen0, done, curf, nxtf, cond, nm, i);
+        assert(dvs(available_fixtures@) =~= av0.push(v.defs[nm][i]));
+        assert(seen_names.s() == seen0.insert(nm));
+    }
+@before current_dir 1
+    proof {
+        lemma_scan_end(v, pick, dvs(available_fixtures@), seen_names.s(), done, curf, nxtf, cond);
+        lemma_walk_enter(v, pick, dvs(available_fixtures@), seen_names.s(), file);
+    }
+@loop 3
+    invariant_except_break
+        rest_inv(pick, dvs(available_fixtures@), seen_names.s(), rf_from_dir(v, pv(current_dir))),
+    invariant
+        wf_names(self.defs()), m0 == self.definitions.m(), v == self.avv(), file == pv(file_path), pick == rf_pick(v, file),
+    ensures
+        rest_inv(pick, dvs(available_fixtures@), seen_names.s(), rf_plugin(v)),
+    decreases pv(current_dir).len(),
+@after conftest_path 1
+    let ghost dir = pv(current_dir);
+    let ghost c = pbv(&conftest_path);
+    let ghost cond = p_same(c, fs_true());
+    let ghost curf = rf_from_dir(v, dir);
+    let ghost nxtf = rf_dir_imp(v, dir);
+    proof {
+        assert(c == conftest_of(dir));
+        done = Set::empty();
+        assert(phase_rel(v, curf, cond, nxtf)) by {
+            assert forall|n: Seq<char>| #[trigger] curf(n) == or_else(first_match(bucket(v.defs, n), cond), nxtf(n)) by { lemma_av_from_dir_unfold(v, dir, n); }
+        }
+        lemma_step_start(pick, dvs(available_fixtures@), seen_names.s(), curf, nxtf);
+    }
+@loopvar 4 it
+@loop 4
+    invariant
+        dir == pv(current_dir), c == pbv(&conftest_path), c == conftest_of(dir), cond == p_same(c, fs_true()),
+        wf_names(self.defs()), m0 == self.definitions.m(), v == self.avv(), file == pv(file_path), pick == rf_pick(v, file),
+        forall|j: int| 0 <= j < it.seq().len() ==> m0.contains_key((#[trigger] it.seq()[j]).k@) && *it.seq()[j].v == m0[it.seq()[j].k@],
+        forall|key: Seq<char>| m0.contains_key(key) ==> exists|j: int| 0 <= j < it.seq().len() && (#[trigger] it.seq()[j]).k@ == key,
+        forall|j: int| 0 <= j < it.index@ ==> done.contains((#[trigger] it.seq()[j]).k@),
+        step_inv(pick, dvs(available_fixtures@), seen_names.s(), done, curf, nxtf),
+        phase_rel(v, curf, cond, nxtf),
+@loopend 4
+    proof {
+        let nm = entry.k@;
+        if !seen_names.s().contains(nm) {
+            let ds = bucket(v.defs, nm);
+            assert forall|j: int| 0 <= j < ds.len() implies !cond(#[trigger] ds[j]) by { let y = entry.v@[j]; }
+        }
+        lemma_scan_done(v, pick, dvs(available_fixtures@), seen_names.s(), done, curf, nxtf, cond, nm);
+        done = done.insert(nm);
+    }
+@loopvar 5 it2
+@loop 5
+    invariant
+        c == pbv(&conftest_path), cond == p_same(c, fs_true()),
+        wf_names(self.defs()), m0 == self.definitions.m(), v == self.avv(), file == pv(file_path), pick == rf_pick(v, file),
+        m0.contains_key(entry.k@), *entry.v == m0[entry.k@], fixture_name@ == entry.k@,
+        it2.seq() == entry.v@.as_ref(),
+        step_inv(pick, dvs(available_fixtures@), seen_names.s(), done, curf, nxtf),
+        phase_rel(v, curf, cond, nxtf),
+        !seen_names.s().contains(entry.k@) ==> forall|i: int| 0 <= i < it2.index@ ==> !cond(dv(&(#[trigger] entry.v@[i]))),
+@before push 2
+    let ghost av0 = dvs(available_fixtures@);
+    let ghost seen0 = seen_names.s();
+@after insert 2
+    proof {
+        let nm = entry.k@; let i = it2.index@ as int;
+        assert(entry.v@[i] == *def);
+        assert(v.defs[nm] == dvs(entry.v@));
+        assert forall|j: int| 0 <= j < i implies !cond(#[trigger] v.defs[nm][j]) by { let y = entry.v@[j]; }
+        assert(is_first(v.defs[nm], cond, i));
+        lemma_scan_push(v, pick, av0, seen0, done, curf, nxtf, cond, nm, i);
+        assert(dvs(available_fixtures@) =~= av0.push(v.defs[nm][i]));
+        assert(seen_names.s() == seen0.insert(nm));
+    }
+@before contains_key 1
+    proof {
+        lemma_scan_end(v, pick, dvs(available_fixtures@), seen_names.s(), done, curf, nxtf, cond);
+        if !av_gate(v, c) { lemma_imp_closed(v, pick, dvs(available_fixtures@), seen_names.s(), dir); }
+    }
+@before for 5
+    let ghost imps = (v.imp)(c);
+    proof {
+        assert(av_gate(v, c));
+        assert(imps == imported_fixtures.s());
+        done = Set::empty();
+        lemma_step_start(pick, dvs(available_fixtures@), seen_names.s(), rf_dir_imp(v, dir), rf_dir_par(v, dir));
+    }
+@loopvar 6 it6
+@loop 6
+    invariant
+        wf_names(self.defs()), m0 == self.definitions.m(), v == self.avv(), file == pv(file_path), pick == rf_pick(v, file),
+        dir == pv(current_dir), c == conftest_of(dir), av_gate(v, c), imps == (v.imp)(c),
+        forall|j: int| 0 <= j < it6.seq().len() ==> imps.contains((#[trigger] it6.seq()[j])@),
+        forall|n: Seq<char>| imps.contains(n) ==> exists|j: int| 0 <= j < it6.seq().len() && (#[trigger] it6.seq()[j])@ == n,
+        forall|j: int| 0 <= j < it6.index@ ==> done.contains((#[trigger] it6.seq()[j])@),
+        step_inv(pick, dvs(available_fixtures@), seen_names.s(), done, rf_dir_imp(v, dir), rf_dir_par(v, dir)),
+@loopstart 6
+    let ghost nm = fixture_name@;
+    let ghost av0 = dvs(available_fixtures@);
+    let ghost seen0 = seen_names.s();
+    let ghost done0 = done;
+    let ghost mut pushed = false;
+    proof { assert(imps.contains(nm)); }
+@after insert 3
+    proof {
+        assert(definitions.r@[0] == *def);
+        assert(v.defs[nm] == dvs(definitions.r@));
+        lemma_imp_push(v, pick, av0, seen0, done0, dir, nm);
+        assert(dvs(available_fixtures@) =~= av0.push(v.defs[nm][0]));
+        assert(seen_names.s() == seen0.insert(nm));
+        pushed = true;
+    }
+@loopend 6
+    proof {
+        if !pushed {
+            assert(dvs(available_fixtures@) == av0 && seen_names.s() == seen0);
+            assert(seen0.contains(nm) || bucket(v.defs, nm).len() == 0);
+            lemma_imp_skip(v, pick, av0, seen0, done0, dir, nm);
+        }
+        done = done0.insert(nm);
+    }
+@after for 5
+    proof { lemma_imp_end(v, pick, dvs(available_fixtures@), seen_names.s(), done, dir); }
+@before parent 2
+    proof { lemma_walk_next(v, pick, dvs(available_fixtures@), seen_names.s(), dir); }
+@before for 6
+    let ghost cond = p_plugin(fs_true());
+    let ghost curf = rf_plugin(v);
+    let ghost nxtf = rf_third(v);
+    proof {
+        done = Set::empty();
+        lemma_step_start(pick, dvs(available_fixtures@), seen_names.s(), curf, nxtf);
+    }
+@loopvar 7 it
+@loop 7
+    invariant
+        cond == p_plugin(fs_true()),
+        wf_names(self.defs()), m0 == self.definitions.m(), v == self.avv(), file == pv(file_path), pick == rf_pick(v, file),
+        forall|j: int| 0 <= j < it.seq().len() ==> m0.contains_key((#[trigger] it.seq()[j]).k@) && *it.seq()[j].v == m0[it.seq()[j].k@],
+        forall|key: Seq<char>| m0.contains_key(key) ==> exists|j: int| 0 <= j < it.seq().len() && (#[trigger] it.seq()[j]).k@ == key,
+        forall|j: int| 0 <= j < it.index@ ==> done.contains((#[trigger] it.seq()[j]).k@),
+        step_inv(pick, dvs(available_fixtures@), seen_names.s(), done, curf, nxtf),
+        phase_rel(v, curf, cond, nxtf),
+@loopend 7
+    proof {
+        let nm = entry.k@;
+        if !seen_names.s().contains(nm) {
+            let ds = bucket(v.defs, nm);
+            assert forall|j: int| 0 <= j < ds.len() implies !cond(#[trigger] ds[j]) by { let y = entry.v@[j]; }
+        }
+        lemma_scan_done(v, pick, dvs(available_fixtures@), seen_names.s(), done, curf, nxtf, cond, nm);
+        done = done.insert(nm);
+    }
+@loopvar 8 it2
+@loop 8
+    invariant
+        cond == p_plugin(fs_true()),
+        wf_names(self.defs()), m0 == self.definitions.m(), v == self.avv(), file == pv(file_path), pick == rf_pick(v, file),
+        m0.contains_key(entry.k@), *entry.v == m0[entry.k@], fixture_name@ == entry.k@,
+        it2.seq() == entry.v@.as_ref(),
+        step_inv(pick, dvs(available_fixtures@), seen_names.s(), done, curf, nxtf),
+        phase_rel(v, curf, cond, nxtf),
+        !seen_names.s().contains(entry.k@) ==> forall|i: int| 0 <= i < it2.index@ ==> !cond(dv(&(#[trigger] entry.v@[i]))),
+@before push 4
+    let ghost av0 = dvs(available_fixtures@);
+    let ghost seen0 = seen_names.s();
+@after insert 4
+    proof {
+        let nm = entry.k@; let i = it2.index@ as int;
+        assert(entry.v@[i] == *def);
+        assert(v.defs[nm] == dvs(entry.v@));
+        assert forall|j: int| 0 <= j < i implies !cond(#[trigger] v.defs[nm][j]) by { let y = entry.v@[j]; }
+        assert(is_first(v.defs[nm], cond, i));
+        lemma_scan_push(v, pick, av0, seen0, done, curf, nxtf, cond, nm, i);
+        assert(dvs(available_fixtures@) =~= av0.push(v.defs[nm][i]));
+        assert(seen_names.s() == seen0.insert(nm));
+    }
+@before for 8
+    let ghost cond0 = cond;
+    let ghost curf0 = curf;
+    let ghost nxtf0 = nxtf;
+    let ghost cond = p_third(fs_true());
+    let ghost curf = rf_third(v);
+    let ghost nxtf = rf_none();
+    proof {
+        lemma_scan_end(v, pick, dvs(available_fixtures@), seen_names.s(), done, curf0, nxtf0, cond0);
+        done = Set::empty();
+        lemma_step_start(pick, dvs(available_fixtures@), seen_names.s(), curf, nxtf);
+    }
+@loopvar 9 it
+@loop 9
+    invariant
+        cond == p_third(fs_true()),
+        wf_names(self.defs()), m0 == self.definitions.m(), v == self.avv(), file == pv(file_path), pick == rf_pick(v, file),
+        forall|j: int| 0 <= j < it.seq().len() ==> m0.contains_key((#[trigger] it.seq()[j]).k@) && *it.seq()[j].v == m0[it.seq()[j].k@],
+        forall|key: Seq<char>| m0.contains_key(key) ==> exists|j: int| 0 <= j < it.seq().len() && (#[trigger] it.seq()[j]).k@ == key,
+        forall|j: int| 0 <= j < it.index@ ==> done.contains((#[trigger] it.seq()[j]).k@),
+        step_inv(pick, dvs(available_fixtures@), seen_names.s(), done, curf, nxtf),
+        phase_rel(v, curf, cond, nxtf),
+@loopend 9
+    proof {
+        let nm = entry.k@;
+        if !seen_names.s().contains(nm) {
+            let ds = bucket(v.defs, nm);
+            assert forall|j: int| 0 <= j < ds.len() implies !cond(#[trigger] ds[j]) by { let y = entry.v@[j]; }
+        }
+        lemma_scan_done(v, pick, dvs(available_fixtures@), seen_names.s(), done, curf, nxtf, cond, nm);
+        done = done.insert(nm);
+    }
+@loopvar 10 it2
+@loop 10
+    invariant
+        cond == p_third(fs_true()),
+        wf_names(self.defs()), m0 == self.definitions.m(), v == self.avv(), file == pv(file_path), pick == rf_pick(v, file),
+        m0.contains_key(entry.k@), *entry.v == m0[entry.k@], fixture_name@ == entry.k@,
+        it2.seq() == entry.v@.as_ref(),
+        step_inv(pick, dvs(available_fixtures@), seen_names.s(), done, curf, nxtf),
+        phase_rel(v, curf, cond, nxtf),
+        !seen_names.s().contains(entry.k@) ==> forall|i: int| 0 <= i < it2.index@ ==> !cond(dv(&(#[trigger] entry.v@[i]))),
+@before push 5
+    let ghost av0 = dvs(available_fixtures@);
+    let ghost seen0 = seen_names.s();
+@after insert 5
+    proof {
+        let nm = entry.k@; let i = it2.index@ as int;
+        assert(entry.v@[i] == *def);
+        assert(v.defs[nm] == dvs(entry.v@));
+        assert forall|j: int| 0 <= j < i implies !cond(#[trigger] v.defs[nm][j]) by { let y = entry.v@[j]; }
+        assert(is_first(v.defs[nm], cond, i));
+        lemma_scan_push(v, pick, av0, seen0, done, curf, nxtf, cond, nm, i);
+        assert(dvs(available_fixtures@) =~= av0.push(v.defs[nm][i]));
+        assert(seen_names.s() == seen0.insert(nm));
+    }
+@before sort_by 1
+    let ghost av_pre = available_fixtures@;
+    proof {
+        lemma_scan_end(v, pick, dvs(available_fixtures@), seen_names.s(), done, curf, nxtf, cond);
+        lemma_name_cmp_total();
+    }
+@return tail
+    lemma_avail_final(v, file, av_pre, seen_names.s(), available_fixtures@, sort_perm(av_pre, available_fixtures@));
+@*/
+
+/*@ extract src/fixtures/resolver.rs resolve_fixture_for_file
+@tags C05 C18 C08
+@ret r
+@rename count vp_count
+@nocontinue 1
+@closure 1 |d: &&FixtureDefinition| -> (b: bool) ensures b == (pbv(&d.file_path) == pv(file_path))
+@closure 2 |d: &&FixtureDefinition| -> (b: bool) ensures b == (d.is_plugin && !d.is_third_party)
+@closure 3 |d: &&FixtureDefinition| -> (b: bool) ensures b == d.is_third_party
+@sig
+    ensures opt_dv(r) == op_resolve_ff(bucket(self.defs(), fixture_name@), pv(file_path), canon_pv(pv(file_path))),
+@after definitions 1
+    let ghost file = pv(file_path);
+    let ghost cfile = canon_pv(file);
+    let ghost dsx = definitions.r@;
+    let ghost ds = dvs(dsx);
+    let ghost cand = ff_cand(cfile);
+    proof { assert(ds == bucket(self.defs(), fixture_name@)); }
+@return 1
+    let s = dsx.as_ref();
+    let i = choose|i: int| 0 <= i < s.len() && s[i] == def && (forall|j: int| 0 <= j < i ==> pbv(&(#[trigger] s[j]).file_path) != file);
+    assert forall|j: int| 0 <= j < i implies !p_same(file, fs_true())(#[trigger] ds[j]) by { let y = s[j]; }
+    assert(ds[i] == dv(def));
+    lemma_first_idx(ds, p_same(file, fs_true()), i);
+@before get_canonical_path 1
+    proof {
+        let s = dsx.as_ref();
+        assert forall|j: int| 0 <= j < ds.len() implies !p_same(file, fs_true())(#[trigger] ds[j]) by { let y = s[j]; }
+        lemma_first_none(ds, p_same(file, fs_true()));
+    }
+@before for 1
+    proof { assert(pbv(&file_path) == cfile); assert(ds.take(0) =~= Seq::<DefV>::empty()); }
+@loopvar 1 it
+@loop 1
+    invariant
+        dsx == definitions.r@, ds == dvs(dsx), it.seq() == dsx.as_ref(), pbv(&file_path) == cfile, cand == ff_cand(cfile),
+        opt_ref_dv(best_conftest) == ff_best(ds.take(it.index@ as int), cand),
+        best_conftest is Some ==> best_depth as int == ff_depth(dv(best_conftest->0)),
+@loopstart 1
+    let ghost i0 = it.index@ as int;
+    proof {
+        assert(dsx[i0] == *def);
+        assert(ds[i0] == dv(def));
+        lemma_ff_best_step(ds, cand, i0);
+    }
+@before if 3
+    proof { assert(ds.take(ds.len() as int) =~= ds); }
+@return 2
+    assert(first_match(ds, p_same(file, fs_true())) is None);
+@return 3
+    let s = dsx.as_ref();
+    let i = choose|i: int| 0 <= i < s.len() && s[i] == def && (forall|j: int| 0 <= j < i ==> !((#[trigger] s[j]).is_plugin && !s[j].is_third_party));
+    assert forall|j: int| 0 <= j < i implies !p_plugin(fs_true())(#[trigger] ds[j]) by { let y = s[j]; }
+    assert(ds[i] == dv(def));
+    lemma_first_idx(ds, p_plugin(fs_true()), i);
+@before find 3
+    proof {
+        let s = dsx.as_ref();
+        assert forall|j: int| 0 <= j < ds.len() implies !p_plugin(fs_true())(#[trigger] ds[j]) by { let y = s[j]; }
+        lemma_first_none(ds, p_plugin(fs_true()));
+    }
+@return 4
+    let s = dsx.as_ref();
+    let i = choose|i: int| 0 <= i < s.len() && s[i] == def && (forall|j: int| 0 <= j < i ==> !(#[trigger] s[j]).is_third_party);
+    assert forall|j: int| 0 <= j < i implies !p_third(fs_true())(#[trigger] ds[j]) by { let y = s[j]; }
+    assert(ds[i] == dv(def));
+    lemma_first_idx(ds, p_third(fs_true()), i);
+@return tail
+    let s = dsx.as_ref();
+    assert forall|j: int| 0 <= j < ds.len() implies !p_third(fs_true())(#[trigger] ds[j]) by { let y = s[j]; }
+    lemma_first_none(ds, p_third(fs_true()));
+    if ds.len() > 0 { assert(ds[0] == dv(&dsx[0])); }
 @*/
 }
 
